@@ -498,6 +498,29 @@ def check_algebra(case):
             return o.violation("constructor:%s" % op, "Matrix.%s%r = %r, the elementary matrix is %r" % (op, tuple(args), got, E))
     if mtuple(se.Matrix.identity()) != tuple(gen.IDENTITY) or mtuple(se.Matrix.scale(args_s := 3.0)) != (3.0, 0.0, 0.0, 3.0, 0.0, 0.0):
         return o.violation("constructor:identity-or-uniform-scale", "Matrix.identity() = %r, Matrix.scale(3) = %r" % (mtuple(se.Matrix.identity()), mtuple(se.Matrix.scale(3.0))))
+    # read-only queries: right answers, and the matrix is the same afterwards
+    q = lib.mk_matrix(A)
+    before = mtuple(q)
+    Ap = gen.mat_apply(A, p)
+    answers = [
+        ("point_in_matrix_space", lambda: tuple(q.point_in_matrix_space(se.Point(p[0], p[1]))), Ap, 1e-9 * S),
+        ("point_in_inverse_space", lambda: tuple(q.point_in_inverse_space(se.Point(Ap[0], Ap[1]))), tuple(p), 1e-9 * S * cond(A) * (1.0 + (abs(A[4]) + abs(A[5])) / max(gen.mat_norm(A), 1e-300))),
+        ("transform_point", lambda: tuple(q.transform_point([p[0], p[1]])), Ap, 1e-9 * S),
+        ("transform_vector", lambda: tuple(q.transform_vector([p[0], p[1]])), (Ap[0] - A[4], Ap[1] - A[5]), 1e-9 * S),
+        ("vector", lambda: mtuple(q.vector()), (A[0], A[1], A[2], A[3], 0.0, 0.0), 1e-12 * nA),
+        ("determinant", lambda: (q.determinant,), (gen.mat_det(A),), 1e-9 * nA * nA),
+        ("value_trans", lambda: (q.value_trans_x(), q.value_trans_y()), (A[4], A[5]), 1e-12 * nA),
+    ]
+    for name, f, want_v, tol_v in answers:
+        got_v = f()
+        if len(got_v) != len(want_v) or any(abs(g_ - w_) > tol_v for g_, w_ in zip(got_v, want_v)):
+            return o.violation("query:%s" % name, "Matrix%r.%s: %r, expected %r" % (A, name, got_v, want_v))
+        if mtuple(q) != before:
+            return o.violation("query-modifies:%s" % name, "Matrix%r after .%s: %r" % (A, name, mtuple(q)))
+    for name, f in (("is_identity", lambda: q.is_identity()), ("rotation", lambda: q.rotation), ("str", lambda: str(q)), ("repr", lambda: repr(q)), ("eq", lambda: q == mB), ("getitem", lambda: [q[i] for i in range(len(q))])):
+        f()
+        if mtuple(q) != before:
+            return o.violation("query-modifies:%s" % name, "Matrix%r after %s: %r" % (A, name, mtuple(q)))
     # pre_/post_ operations
     m = lib.mk_matrix(A)
     ref = A
